@@ -238,6 +238,11 @@ func Monitors(h History, tr *Trace) []Failure {
 				add("C13", "C13/missed-counter-differs-from-bitmap", height, "cons key %d: counter %d, bits %d", i, g.Missed, g.BitMissed)
 			}
 		}
+		// C16: the validator cap in force is respected by the set CometBFT is given (a lowered cap displaces the weakest
+		// validators at the end of the block that lowers it)
+		if s.MaxVals > 0 && int64(len(s.CometNext)) > s.MaxVals {
+			add("C16", "C16/validator-set-larger-than-max-validators", height, "set has %d members, max_validators is %d", len(s.CometNext), s.MaxVals)
+		}
 		// C13 (a): jailed validators are out of the set — and so is their consensus key, whoever else claims it
 		for id, v := range s.Vals {
 			if v.Jailed {
